@@ -337,8 +337,10 @@ func isoScenarios(quick bool) (ps []interface{}, names []string) {
 		}
 		add(IsoParams{Cfg: "A", Prefix: pre, Begin: B1, Program: progs[0], Ending: "commit", Readers: 1})
 		add(IsoParams{Cfg: "A", Prefix: pre, Begin: B, Program: progs[0], Ending: "commit", Readers: 2})
-		if !quick {
+		if pre == "plain" || !quick {
 			add(IsoParams{Cfg: "A", Prefix: pre, Begin: B, Program: progs[0], Ending: "commit2", Readers: 1})
+		}
+		if !quick {
 			add(IsoParams{Cfg: "A", Prefix: pre, Begin: B1, Program: progs[1], Ending: "commit", Readers: 2})
 			add(IsoParams{Cfg: "C", Prefix: pre, Begin: B, Program: progs[2], Ending: "commit", Readers: 2})
 		}
